@@ -1,7 +1,7 @@
 SPECIFICATION Spec
 CONSTANTS
   FollowRootLink = FALSE
-  Wide = FALSE
+  Wide = TRUE
   EmitTR = TRUE
 CHECK_DEADLOCK FALSE
 INVARIANTS EveryStepInside OutsideUntouched LayerGone AlwaysSucceeds
